@@ -22,7 +22,7 @@ func (t tr) ReplyHeader() transport.Header   { return nil }
 
 func main() {
 	probe.Init()
-	for _, cs := range probe.Plan() {
+	for cs, more := probe.Next(); more; cs, more = probe.Next() {
 		custom, sc := cs.Custom, cs.Sc
 		probe.SetCase(cs)
 		for _, arm := range []string{"T", "EE", "ET"} {
